@@ -208,7 +208,19 @@ func (s *Summaries) ctor0(fn *ssa.Function) *Summary {
 
 // ctorBase fills sm with the field state of one returned object.
 func (s *Summaries) ctorBase(fn *ssa.Function, tm *Termer, named *types.Named, base ssa.Value, sm *Summary) *Summary {
-	return s.objectState(fn, tm, named, base, sm, IsReturn)
+	// only returns that hand the object out count: `return nil, err` paths say nothing about its fields
+	return s.objectState(fn, tm, named, base, sm, func(in ssa.Instruction) bool {
+		ret, ok := in.(*ssa.Return)
+		if !ok {
+			return false
+		}
+		if len(ret.Results) > 0 {
+			if c, isC := ret.Results[0].(*ssa.Const); isC && c.Value == nil {
+				return false
+			}
+		}
+		return true
+	})
 }
 
 // ObjectAt computes the field state of the object `base` (an allocation or
